@@ -221,8 +221,10 @@ func init() {
 		ID: "C04",
 		Runs: []hrun{
 			{Pkg: waddrmgrPkg, Fn: "ZzC04", Tiers: "qt", NoWitness: true, Reach: []string{"c04-end", "created", "imported", "passphrase-changed"}, Bound: "one operation order: create, open, unlock, 3 addresses, import private key + secret P2SH script + secret witness script, new account, private passphrase change, convert to watching-only, reopen; both passphrases, the new passphrase and both secret scripts SYMBOLIC; every window of every key/value ever written compared with 40+ secrets (and, until imports, public material)"},
+			{Pkg: waddrmgrPkg, Fn: "ZzC04RaceB2", Tiers: "qt", Sched: true, NoWitness: true, Reach: []string{"c04-end", "import-refused", "import-succeeded"}, Bound: "ImportPrivateKey concurrent with Manager.Lock, every interleaving of their synchronisation operations with at most 2 preemptions: the key is refused or sealed under the real crypto key, never under the zeroed one"},
 		},
 		Assume: append([]string{
+			"'unencrypted' includes 'sealed under a key everybody knows': every length-prefixed field and whole value written is offered to the all-zero snacl.CryptoKey and must not open (this is how the zero script key of the unchanged code is found - recorded as a known finding - and how a wiped-but-still-used private crypto key is detected)",
 			"granularity: the bytes handed to walletdb Put/CreateBucket (memdb write log, a superset of every commit image); bbolt's file image, page reuse and what a crash leaves in freed pages are outside",
 			"a stored window 'is' a symbolic secret if equality is valid under the path condition (solver); seed-derived keys and the imported key are concrete (byte search)",
 			"witness paths are not replayed natively: natively a symbolic secret takes the model's concrete value, which may coincide with ordinary database bytes",
